@@ -155,22 +155,26 @@ def removeItem (l : List BEntry) (x : Item) : List BEntry :=
 
 def hasItem (l : List BEntry) (x : Item) : Bool := l.any (fun e => e.item.id == x.id)
 
+/-- the reservation `t` (slot `i`, bound to `e`) is dissolved -/
+def unbind (s : BufStore) (t : Tok) (i : Nat) : BufStore :=
+  { s with getRes := s.getRes.erase t, resEv := s.resEv.eraseIdx i, resItems := s.resItems.eraseIdx i }
+
+def takeEntry (s : BufStore) (e : BEntry) : BufStore :=
+  { s with ready := removeItem s.ready e.item, gotLog := s.gotLog ++ [e.item] }
+
 def get (s : BufStore) (proc tid : Nat) : BufStore × Res :=
   if s.getRes.isEmpty then (s, .err .runtime) else
   match s.getRes.find? (fun t => t.id == tid && t.proc == proc) with
   | none => (s, .err .runtime)
   | some t =>
-    let i := s.resEv.idxOf t
-    if i ≥ s.resEv.length then (s, .err .value) else        -- reserved_events.index → ValueError
-    let s1 := { s.dropGetRes t with resEv := s.resEv.eraseIdx i }
-    match s.resItems[i]? with
-    | none => (s1, .err .value)                               -- reserved_items.pop → IndexError → ValueError
+    if s.resEv.idxOf t ≥ s.resEv.length then (s, .err .value) else        -- reserved_events.index → ValueError
+    match s.resItems[s.resEv.idxOf t]? with
+    | none =>                                                               -- reserved_items.pop → ValueError
+      ({ s with getRes := s.getRes.erase t, resEv := s.resEv.eraseIdx (s.resEv.idxOf t) }, .err .value)
     | some e =>
-      let s2 := { s1 with resItems := s.resItems.eraseIdx i }
-      if hasItem s2.ready e.item then
-        let s3 := { s2 with ready := removeItem s2.ready e.item, gotLog := s2.gotLog ++ [e.item] }
-        ((s3.updLevel).trigPut, .item e.item)
-      else (s2, .err .value)                                  -- ready_items.remove → ValueError
+      if hasItem s.ready e.item then
+        ((((s.unbind t (s.resEv.idxOf t)).takeEntry e).updLevel).trigPut, .item e.item)
+      else (s.unbind t (s.resEv.idxOf t), .err .value)                    -- ready_items.remove → ValueError
 
 def cancelPut (s : BufStore) (tid : Nat) : BufStore × Res :=
   match findTok s.putQ tid with
@@ -180,42 +184,48 @@ def cancelPut (s : BufStore) (tid : Nat) : BufStore × Res :=
     | some t => ((s.dropPutRes t).trigPut, .ok)
     | none => (s, .err .runtime)
 
+/-- re-insert a released entry: right behind the reserved block (FIFO) / just below it (LIFO) -/
+def release (s : BufStore) (e : BEntry) : BufStore :=
+  let r := removeItem s.ready e.item
+  let idx := match s.cfg.mode with
+    | .fifo => s.resEv.length
+    | .lifo => r.length - s.resEv.length
+  { s with ready := pyInsert r idx e }
+
 def cancelGet (s : BufStore) (tid : Nat) : BufStore × Res :=
   match findTok s.getQ tid with
   | some t => (({ s with getQ := s.getQ.erase t }).trigGet, .ok)
   | none =>
     match findTok s.getRes tid with
     | some t =>
-      let i := s.resEv.idxOf t
-      if i ≥ s.resEv.length then (s.dropGetRes t, .err .value) else
-      match s.resItems[i]? with
+      if s.resEv.idxOf t ≥ s.resEv.length then (s.dropGetRes t, .err .value) else
+      match s.resItems[s.resEv.idxOf t]? with
       | none => (s.dropGetRes t, .err .index)
       | some e =>
-        let s1 := { s.dropGetRes t with resEv := s.resEv.eraseIdx i, resItems := s.resItems.eraseIdx i }
-        if hasItem s1.ready e.item then
-          let r := removeItem s1.ready e.item
-          let idx := match s.cfg.mode with
-            | .fifo => s1.resEv.length
-            | .lifo => r.length - s1.resEv.length
-          (({ s1 with ready := pyInsert r idx e }).trigGet, .ok)
-        else (s1, .err .runtime)
+        if hasItem s.ready e.item then
+          (((s.unbind t (s.resEv.idxOf t)).release e).trigGet, .ok)
+        else (s.unbind t (s.resEv.idxOf t), .err .runtime)
     | none => (s, .err .runtime)
 
 def setNow (s : BufStore) (d : Nat) : BufStore :=
   { s with now := d, area := s.area + s.level * (d - s.now) }
 
+def moveRoom (s : BufStore) (e : BEntry) : Bool :=
+  match s.cfg.cap with
+  | none => true
+  | some c => decide (s.ready.length + (s.transit.erase e).length < c)
+
+def arrive (s : BufStore) (e : BEntry) : BufStore :=
+  { s with transit := s.transit.erase e,
+           ready := (match s.cfg.mode with
+             | .fifo => s.ready ++ [e]
+             | .lifo => pyInsert s.ready (s.ready.length - s.resEv.length) e),
+           availLog := s.availLog ++ [e.seq] }
+
 /-- `move_to_ready_items` after its timeout: the entry leaves `items` and joins `ready_items`. -/
 def move (s : BufStore) (e : BEntry) : BufStore :=
-  let tr := s.transit.erase e
-  let ok := match s.cfg.cap with
-    | none => true
-    | some c => decide (s.ready.length + tr.length < c)
-  if ok then
-    let rd := match s.cfg.mode with
-      | .fifo => s.ready ++ [e]
-      | .lifo => pyInsert s.ready (s.ready.length - s.resEv.length) e
-    (({ s with transit := tr, ready := rd, availLog := s.availLog ++ [e.seq] }).trigGet).trigPut
-  else { s with transit := tr, crashed := true }
+  if s.moveRoom e then ((s.arrive e).trigGet).trigPut
+  else { s with transit := s.transit.erase e, crashed := true }
 
 def fireAll : List BEntry → BufStore → BufStore
   | [], s => s
